@@ -309,6 +309,8 @@ class BundleFlattener(ElabPass):
         """Recursive inner implementation of `flatten_bundle_inst`."""
 
         bundle_def = bundle_inst.of
+        # From here on the definition is in use: later additions to it would be seen by some of its instances only.
+        bundle_def._elaborated = True
         scope = BundleScope(src=bundle_inst)
 
         # Copy each scalar signal, retaining its original name as the key in `scope.signals`
